@@ -419,7 +419,10 @@ class Query:
 
         :return: CreateQueryBuilder
         """
-        return CreateQueryBuilder().create_table(table)
+        # the builder renders with the conventions (quote characters, dialect) of the class it was started from
+        create_builder = CreateQueryBuilder()
+        create_builder.QUERY_CLS = cls  # type:ignore[misc]
+        return create_builder.create_table(table)
 
     @classmethod
     def drop_table(cls, table: str | Table) -> "DropQueryBuilder":
@@ -431,7 +434,10 @@ class Query:
 
         :return: DropQueryBuilder
         """
-        return DropQueryBuilder().drop_table(table)
+        drop_builder = DropQueryBuilder()
+        drop_builder.QUERY_CLS = cls  # type:ignore[misc]
+        drop_builder.SQL_CONTEXT = cls.SQL_CONTEXT
+        return drop_builder.drop_table(table)
 
     @classmethod
     def into(cls, table: Table | str, **kwargs: Any) -> "QueryBuilder":
